@@ -424,7 +424,10 @@ func genPacket(r *rand.Rand, ssrc int64, seq int, bk map[string]bool, allowLong 
 		bk["payload-nil"] = true
 	}
 	switch k := r.Intn(100); {
-	case k < 55:
+	case k < 52:
+	case k < 55: // inconsistent header: PaddingSize without the Padding flag
+		h.PadSize = 1 + r.Intn(255)
+		bk["padsize-without-flag"] = true
 	case k < 85: // old convention: count in the last payload byte
 		h.Pad = true
 		bk["pad-old"] = true
@@ -469,7 +472,7 @@ func genPF(r *rand.Rand) cq.Case {
 		if r.Intn(3) == 0 {
 			seq = []int{0, 1, 2, 3, 255, 256, 257, 258, 65535}[r.Intn(9)]
 		}
-		h, p, isNil := genPacket(r, 1000, seq, bk, r.Intn(2) == 0)
+		h, p, isNil := genPacket(r, 1000, seq, bk, true)
 		cl := pfCall{H: h, P: p, Nil: isNil}
 		switch r.Intn(6) {
 		case 0:
